@@ -23,7 +23,7 @@ func init() {
 
 // C03Params are the generator parameters of C03.
 func C03Params(thorough bool) harness.GenParams {
-	p := harness.GenParams{SyncNone: true, HugeTx: true, MaxItems: 10, MaxOps: 10, Stall: true, Reopen: true, MaxPages: 160}
+	p := harness.GenParams{SyncNone: true, HugeTx: true, MaxItems: 10, MaxOps: 10, Stall: true, Reopen: true, LimitOpen: true, MaxPages: 160}
 	if thorough {
 		p.MaxItems, p.MaxOps, p.MaxPages = 24, 14, 400
 	}
